@@ -176,6 +176,43 @@ pub struct RawSession {
     pub status: String,
 }
 
+/// The library in the client role against a raw server: the raw side opens its control stream,
+/// reads the CONNECT request and answers 200.  Returns the client's connection, the raw side of the
+/// session (connect_send = the response direction of the request stream) and both endpoints.
+pub async fn client_establish(path: &str, transport: Option<quinn::TransportConfig>) -> Result<(wtransport::Connection, RawSession, quinn::Endpoint, Endpoint<Client>), String> {
+    let (rep, addr) = raw_server(None);
+    let client = match transport {
+        None => wt_client(),
+        Some(t) => {
+            let tls = wtransport::tls::client::build_default_tls_config(
+                Arc::new(rustls::RootCertStore::empty()),
+                Some(Arc::new(wtransport::tls::client::NoServerVerification::new())),
+            );
+            let cfg = ClientConfig::builder().with_bind_address("127.0.0.1:0".parse().unwrap()).with_custom_tls_and_transport(tls, t).build();
+            Endpoint::client(cfg).map_err(|e| e.to_string())?
+        }
+    };
+    let url = format!("https://127.0.0.1:{}{}", addr.port(), path);
+    let raw_side = async {
+        let incoming = tokio::time::timeout(T_CALL, rep.accept()).await.map_err(|_| "no incoming".to_string())?.ok_or("endpoint closed")?;
+        let conn = tokio::time::timeout(T_CALL, incoming).await.map_err(|_| "handshake timeout".to_string())?.map_err(|e| e.to_string())?;
+        let mut control = conn.open_uni().await.map_err(|e| e.to_string())?;
+        control.write_all(&peer_control_bytes()).await.map_err(|e| e.to_string())?;
+        let (mut s, mut r) = tokio::time::timeout(T_CALL, conn.accept_bi()).await.map_err(|_| "no request stream".to_string())?.map_err(|e| e.to_string())?;
+        let session_id: u64 = quinn::VarInt::from(s.id()).into_inner();
+        let (kind, _payload) = read_one_frame(&mut r).await?;
+        if kind != 1 {
+            return Err(format!("request is frame kind {}", kind));
+        }
+        s.write_all(&response_bytes("200", &[])).await.map_err(|e| e.to_string())?;
+        Ok(RawSession { conn, control, connect_send: s, connect_recv: r, session_id, status: "200".into() })
+    };
+    let (raw, c) = tokio::join!(raw_side, tokio::time::timeout(T_CALL, client.connect(&url)));
+    let raw = raw?;
+    let c = c.map_err(|_| "connect timeout".to_string())?.map_err(|e| e.to_string())?;
+    Ok((c, raw, rep, client))
+}
+
 /// raw client: connect, open control stream, send the request, read the response
 pub async fn raw_establish(ep: &quinn::Endpoint, addr: SocketAddr, path: &str) -> Result<RawSession, String> {
     let conn = tokio::time::timeout(T_CALL, ep.connect(addr, "localhost").map_err(|e| e.to_string())?)
